@@ -12,7 +12,7 @@ ENGINE = "c07_authz"
 FAMILIES = ["issue", "meta", "disc", "review"]
 DEVS = {"ilabel": "C07_Issue", "iredact": "C07_Issue", "plabel": "C07_Patch", "passign": "C07_Patch"}
 QUICK_DEVS = 2
-REC = {False: (24, 22), True: (160, 40)}   # (runs, ops per run) of the recorder, quick / thorough
+REC = {False: (24, 22), True: (70, 30)}   # (runs, ops per run) of the recorder, quick / thorough
 REC_WHAT = "random issue and patch histories (6 actors, 3 documents, forks) through storage + cob::get"
 RULE = ("cases = every distinct reachable state of the four bounded instances (issue; patch title/labels/assignees/lifecycle/"
         "revisions; revision discussions; reviews and review comments), each reached by replaying its op log on the real "
